@@ -181,6 +181,11 @@ class Family:
                     status = "known:" + ",".join(mechs)
                     self.stats["known_finding_programs"] += 1
             if status == "violation":
+                mech = findings.signature(p.src, r)
+                if mech and self.run.known(mech, {"source": p.src[:300], "differing_observables": sorted(r.diff_keys)}):
+                    status = "known:" + mech
+                    self.stats["known_finding_programs"] += 1
+            if status == "violation":
                 self.stats["violating_programs"] += 1
                 self.report(p, r, r2)
             out.append((p, r, status))
